@@ -149,6 +149,7 @@ def run(repo, rep, tier):
     values_compared_exactly(repo, rep)
     manager_id_stored_as_given(repo, rep)
     server_refuses_referenced_delete(repo, rep)
+    context_exit_always_cleans_up(repo, rep)
 
     # ---- R1 ---------------------------------------------------------------
     sites = pattern_sites(repo, SM)
@@ -373,6 +374,14 @@ def run(repo, rep, tier):
                                                           ast.Assign)) and
                 isinstance(s.value, ast.Call) and
                 (dotted(s.value.func) or '').endswith('.DeleteInstance')]
+        # the deleted path: the variable of the table, or whatever name the
+        # code gives to (an alias of) the path parameter
+        from ..flow import value_of as _vo2
+        if len(dels) == 1 and dels[0].value.args:
+            d_arg = dels[0].value.args[0]
+            if norm(d_arg) != pvar and \
+                    norm(_vo2(f, d_arg)) in (f.params or ()):
+                pvar = norm(d_arg)
         # names bound to the owned list of this kind
         aliases = {lst}
         for s_ in cfg.stmts():
@@ -396,8 +405,11 @@ def run(repo, rep, tier):
             if not isinstance(cmp_.ops[0], ast.Eq if eq else ast.NotEq):
                 return False
             l_, r_ = cmp_.left, cmp_.comparators[0]
-            return (names_path(l_) and norm(r_) == pvar) or \
-                (names_path(r_) and norm(l_) == pvar)
+
+            def is_p(e):
+                return norm(e) == pvar or norm(_vo2(f, e)) == pvar
+            return (names_path(l_) and is_p(r_)) or \
+                (names_path(r_) and is_p(l_))
         sfacts = stmt_facts(f.node)
         prune = []          # (stmt, selected by the deleted path?)
         for s_ in cfg.stmts():
@@ -693,23 +705,29 @@ def run(repo, rep, tier):
         f = mgr.methods[rname]
         r3.sites += 1
         r3.functions.add(f.fq)
+        # judged with private helpers inlined (the self-recursive call for
+        # list arguments stays a call); the instance that is looked up is
+        # the instance that is deleted, whatever the variable is called
+        from ..inline import Flat as _Flat3
+        from ..flow import value_of as _vo3
+        f = _Flat3(f, keep=(rname,))
         cfg = CFG(f.node)
-        dels = [s for s in cfg.stmts() if isinstance(s, ast.Expr) and
+        dels = [s for s in cfg.stmts() if isinstance(s, (ast.Expr,
+                                                          ast.Assign)) and
                 isinstance(s.value, ast.Call) and
                 dotted(s.value.func) == 'server.conn.DeleteInstance']
         refq = [s for s in cfg.stmts() if isinstance(s, ast.Assign) and
                 isinstance(s.value, ast.Call) and
                 dotted(s.value.func) == 'server.conn.ReferenceNames' and
-                s.value.args and norm(s.value.args[0]) == pvar and
+                s.value.args and
                 any(k.arg == 'ResultClass' and
                     norm(k.value) == 'SUBSCRIPTION_CLASSNAME'
                     for k in s.value.keywords)]
         # the delete runs only where the query result is known to be empty,
         # and a non-empty result is refused (not silently skipped)
         sf3 = stmt_facts(f.node)
-        rv = norm(refq[0].targets[0]) if refq else None
 
-        def knows(st_, pol_):
+        def knows(st_, pol_, rv):
             for t, pl in sf3.get(st_, ((), ()))[0]:
                 if norm(t) == rv and pl == pol_:
                     return True
@@ -721,11 +739,23 @@ def run(repo, rep, tier):
                             empty != pol_:
                         return True
             return False
-        refused = [s_ for s_ in sf3 if isinstance(s_, ast.Raise) and
-                   knows(s_, True)]
-        ok = bool(dels) and bool(refq) and bool(refused) and all(
-            knows(d, False) and
-            any(cfg.dominates(q, d) for q in refq) for d in dels)
+
+        def same_obj(a, b):
+            return norm(a) == norm(b) or \
+                norm(_vo3(f, a)) == norm(_vo3(f, b))
+
+        def guarded(d):
+            if not d.value.args:
+                return False
+            for q in refq:
+                rv = norm(q.targets[0])
+                if same_obj(q.value.args[0], d.value.args[0]) and \
+                        cfg.dominates(q, d) and knows(d, False, rv) and \
+                        any(isinstance(s_, ast.Raise) and
+                            knows(s_, True, rv) for s_ in sf3):
+                    return True
+            return False
+        ok = bool(dels) and bool(refq) and all(guarded(d) for d in dels)
         r3.ob(ok, rname + ':ref-guard',
               {'function': rname,
                'query': norm(refq[0], 100) if refq else None})
@@ -981,6 +1011,43 @@ def values_compared_exactly(repo, rep):
     probe = ast.parse("a.value.lower() == b.lower()").body[0].value
     if not folded_value_operands(probe):
         raise AnalysisError('C18.R10 recogniser broken')
+
+
+def context_exit_always_cleans_up(repo, rep):
+    """C18.R13: leaving the `with` block deletes the owned instances
+    whatever the reason for leaving it: every way through __exit__() calls
+    remove_all_servers().  A cleanup that is skipped for some exception
+    types (e.g. for every pywbem.Error, which includes the CIMError of a
+    refused add_filter()) leaves the owned filters, destinations and
+    subscriptions in the server after the manager is gone - nobody owns
+    them any more."""
+    from ..inline import Flat
+    from ..paths import return_paths
+    r13 = rep.rule('C18.R13', '__exit__() removes all servers on every path')
+    mgr = repo.cls(SM, 'WBEMSubscriptionManager')
+    ex = mgr.methods.get('__exit__')
+    if ex is None:
+        raise AnalysisError('WBEMSubscriptionManager.__exit__ vanished')
+    r13.sites += 1
+    r13.functions.add(ex.fq)
+    paths = return_paths(Flat(ex, keep=('remove_all_servers',)),
+                         max_paths=64, inline=False, with_raises=True)
+    if not paths:
+        raise AnalysisError('__exit__: paths not enumerable')
+    bad = [p_ for p_ in paths if p_.raised is None and not any(
+        isinstance(c, ast.Call) and
+        dotted(c.func) == 'self.remove_all_servers'
+        for st in p_.effects for c in ast.walk(st))]
+    r13.ob(not bad, '__exit__', {'paths': len(paths)})
+    for p_ in bad[:1]:
+        conds = ', '.join('%s%s' % ('' if pol else 'not ', norm(t, 50))
+                          for t, pol in p_.facts[:3]) or 'no condition'
+        rep.finding(r13, ex.qualname, 'self.remove_all_servers()',
+                    'cleanup-skipped', SM, ex.node.lineno,
+                    '__exit__() returns without calling '
+                    'remove_all_servers() when %s: the owned instances stay '
+                    'in the server although the manager that owns them is '
+                    'gone' % conds)
 
 
 def server_refuses_referenced_delete(repo, rep):
